@@ -14,10 +14,12 @@ B64OK(ev) ==
   /\ ev.pop = PopCount(b) /\ ev.lssb = Lssb(b)       \* run-time argument
   /\ ev.popk \in {-99, PopCount(b)} /\ ev.lssbk \in {-99, Lssb(b)}   \* compile-time constant (where the driver has one)
   /\ ev.o = <<PopCount(b), Lssb(b)>>
+  /\ ev.lneg = (IF Lssb(b) < 0 THEN 1 ELSE 0) /\ ev.pneg = 0  \* the value itself, not something that merely converts to it
 SweepOK(ev) == ev.bad = 0 /\ ev.n_hi > 0
 TraceInit == ti = 1
 TraceNext == /\ ti <= Len(T) /\ ti' = ti + 1
-             /\ LET ev == T[ti] IN CASE ev.e = "B32" -> B32OK(ev) [] ev.e = "B64" -> B64OK(ev) [] ev.e = "Sweep32" -> SweepOK(ev) [] OTHER -> FALSE
+             /\ LET ev == T[ti] IN CASE ev.e = "B32" -> B32OK(ev) [] ev.e = "B64" -> B64OK(ev) [] ev.e = "Sweep32" -> SweepOK(ev)
+                                     [] ev.e = "K64neg" -> ev.lneg = ev.zero      \* constant expression: const_lssb(0) < 0, others >= 0 [] OTHER -> FALSE
 TraceSpec == TraceInit /\ [][TraceNext]_ti
 TraceAccepted ==
   LET d == TLCGet("stats").diameter IN
